@@ -36,6 +36,8 @@ type case29 struct {
 	Fields     []entry29  `json:"fields"`
 	Perms      []string   `json:"perms"`
 	Link       bool       `json:"link"`
+	Ind        []string   `json:"ind"` // entries stored as indirect objects: perms | acro | fields | kids
+	SF         int        `json:"sf"`  // /SigFlags of a document without signature fields (-1: absent)
 	Outcome    string     `json:"outcome"`
 	SigFields  []string   `json:"sigfields"`
 	KeepFields []string   `json:"keepfields"`
@@ -50,6 +52,15 @@ type mism29 struct {
 }
 
 const placeholderSig = "/Filter /Adobe.PPKLite /SubFilter /adbe.pkcs7.detached /ByteRange [0 10 20 10] /Contents <3003020100> /M (D:20260101000000Z)"
+
+func (c case29) indirect(what string) bool {
+	for _, x := range c.Ind {
+		if x == what {
+			return true
+		}
+	}
+	return false
+}
 
 // build29 emits the document of a case.
 func build29(c case29) []byte {
@@ -70,6 +81,12 @@ func build29(c case29) []byte {
 			return fmt.Sprintf(" /P %d 0 R", page(p))
 		}
 		return ""
+	}
+	kidsArr := func(refs string) string { // "[a 0 R b 0 R]" inline or as an object of its own
+		if c.indirect("kids") {
+			return fmt.Sprintf("%d 0 R", d.Add("["+refs+"]"))
+		}
+		return "[" + refs + "]"
 	}
 	sigDict := func(e entry29) string {
 		if !e.V {
@@ -103,7 +120,7 @@ func build29(c case29) []byte {
 				annots[p] = append(annots[p], w)
 				kids = append(kids, fmt.Sprintf("%d 0 R", w))
 			}
-			d.Set(f, fmt.Sprintf("<< /FT /Sig /T (s%d)%s /Kids [%s] >>", i, sigDict(e), strings.Join(kids, " ")))
+			d.Set(f, fmt.Sprintf("<< /FT /Sig /T (s%d)%s /Kids %s >>", i, sigDict(e), kidsArr(strings.Join(kids, " "))))
 			top = append(top, f)
 		case "grp":
 			g := d.Reserve()
@@ -115,21 +132,21 @@ func build29(c case29) []byte {
 				annots[e.P] = append(annots[e.P], t)
 				kids += fmt.Sprintf(" %d 0 R", t)
 			}
-			d.Set(g, fmt.Sprintf("<< /T (g%d) /Kids [%s] >>", i, kids))
+			d.Set(g, fmt.Sprintf("<< /T (g%d) /Kids %s >>", i, kidsArr(kids)))
 			top = append(top, g)
 		case "grp3":
 			g := d.Reserve()
 			hh := d.Reserve()
 			s := d.Add(fmt.Sprintf("<< /Type /Annot /Subtype /Widget /Parent %d 0 R /FT /Sig /T (s) /Rect %s /F 4%s%s >>", hh, rect(i, 0), pref(e, e.P), sigDict(e)))
 			annots[e.P] = append(annots[e.P], s)
-			d.Set(hh, fmt.Sprintf("<< /Parent %d 0 R /T (h) /Kids [%d 0 R] >>", g, s))
-			d.Set(g, fmt.Sprintf("<< /T (g%d) /Kids [%d 0 R] >>", i, hh))
+			d.Set(hh, fmt.Sprintf("<< /Parent %d 0 R /T (h) /Kids %s >>", g, kidsArr(fmt.Sprintf("%d 0 R", s))))
+			d.Set(g, fmt.Sprintf("<< /T (g%d) /Kids %s >>", i, kidsArr(fmt.Sprintf("%d 0 R", hh))))
 			top = append(top, g)
 		case "grpFT":
 			g := d.Reserve()
 			s := d.Add(fmt.Sprintf("<< /Type /Annot /Subtype /Widget /Parent %d 0 R /T (s) /Rect %s /F 4%s%s >>", g, rect(i, 0), pref(e, e.P), sigDict(e)))
 			annots[e.P] = append(annots[e.P], s)
-			d.Set(g, fmt.Sprintf("<< /FT /Sig /T (g%d) /Kids [%d 0 R] >>", i, s))
+			d.Set(g, fmt.Sprintf("<< /FT /Sig /T (g%d) /Kids %s >>", i, kidsArr(fmt.Sprintf("%d 0 R", s))))
 			top = append(top, g)
 		case "tx":
 			n := d.Add(fmt.Sprintf("<< /Type /Annot /Subtype /Widget /FT /Tx /T (t%d) /Rect %s /F 4 /P %d 0 R /DA (/Helv 10 Tf 0 g) >>", i, rect(i, 0), page(e.P)))
@@ -152,7 +169,7 @@ func build29(c case29) []byte {
 		d.Set(page(p), strings.TrimSuffix(d.Objs[page(p)-1], " >>")+" /Annots ["+strings.Join(refs, " ")+"] >>")
 	}
 	extra := ""
-	if len(top) > 0 {
+	if len(top) > 0 || c.SF >= 0 {
 		var refs []string
 		for _, n := range top {
 			refs = append(refs, fmt.Sprintf("%d 0 R", n))
@@ -160,8 +177,18 @@ func build29(c case29) []byte {
 		sf := ""
 		if hasSig {
 			sf = " /SigFlags 3"
+		} else if c.SF >= 0 {
+			sf = fmt.Sprintf(" /SigFlags %d", c.SF) // stale flag of a document without signature fields
 		}
-		extra += fmt.Sprintf(" /AcroForm << /Fields [%s]%s /DA (/Helv 10 Tf 0 g) /DR << /Font << /Helv %d 0 R >> >> >>", strings.Join(refs, " "), sf, font)
+		farr := "[" + strings.Join(refs, " ") + "]"
+		if c.indirect("fields") {
+			farr = fmt.Sprintf("%d 0 R", d.Add(farr))
+		}
+		af := fmt.Sprintf("<< /Fields %s%s /DA (/Helv 10 Tf 0 g) /DR << /Font << /Helv %d 0 R >> >> >>", farr, sf, font)
+		if c.indirect("acro") {
+			af = fmt.Sprintf("%d 0 R", d.Add(af))
+		}
+		extra += " /AcroForm " + af
 	}
 	if len(c.Perms) > 0 {
 		var pe []string
@@ -177,7 +204,11 @@ func build29(c case29) []byte {
 				pe = append(pe, fmt.Sprintf("/UR3 %d 0 R", n))
 			}
 		}
-		extra += " /Perms << " + strings.Join(pe, " ") + " >>"
+		pd := "<< " + strings.Join(pe, " ") + " >>"
+		if c.indirect("perms") {
+			pd = fmt.Sprintf("%d 0 R", d.Add(pd))
+		}
+		extra += " /Perms " + pd
 	}
 	d.Set(d.Root, strings.TrimSuffix(d.Objs[d.Root-1], " >>")+extra+" >>")
 	return d.Bytes()
@@ -504,12 +535,16 @@ func runCase29(c case29) []mism29 {
 	}
 	sk := shapeKey(c)
 	permKey := strings.Join(sortedCopy(c.Perms), "+")
+	permBase := permKey
+	if c.indirect("perms") {
+		permKey += ":indirect"
+	}
 	if c.Outcome == "nosig" {
 		if !errors.Is(err, api.ErrNoSignatures) {
-			fail("nosig-error", fmt.Sprintf("document without signatures: expected the no-signatures error, got %v", err), fmt.Sprint(err))
+			fail("nosig-error", fmt.Sprintf("document without signatures (fields [%s], /SigFlags %d): expected the no-signatures error, got %v", sk, c.SF, err), fmt.Sprint(err))
 		}
 		if outExists || touched || len(diff) > 0 {
-			fail("nosig-wrote", fmt.Sprintf("document without signatures: output written=%v exists=%v, directory changes %v", touched, outExists, diff), diff)
+			fail("nosig-wrote", fmt.Sprintf("document without signatures (fields [%s], /SigFlags %d): output written=%v exists=%v, directory changes %v", sk, c.SF, touched, outExists, diff), diff)
 		}
 		// in place (no output name): the input must stay untouched
 		sandboxMu.Lock()
@@ -518,10 +553,10 @@ func runCase29(c case29) []mism29 {
 		res2 := sb2.Run(fsx.RunCfg{}, func() error { return api.RemoveSignaturesFile(in2, "", model.NewDefaultConfiguration()) })
 		sandboxMu.Unlock()
 		if !errors.Is(res2.Err, api.ErrNoSignatures) || res2.Panicked {
-			fail("nosig-error", fmt.Sprintf("document without signatures (in place): expected the no-signatures error, got %v", res2.Err), fmt.Sprint(res2.Err))
+			fail("nosig-error", fmt.Sprintf("document without signatures (fields [%s], /SigFlags %d, in place): expected the no-signatures error, got %v", sk, c.SF, res2.Err), fmt.Sprint(res2.Err))
 		}
 		if d2 := fsx.Diff(res2.Before, res2.After); len(d2) > 0 {
-			fail("nosig-wrote", fmt.Sprintf("document without signatures (in place): directory changes %v", d2), d2)
+			fail("nosig-wrote", fmt.Sprintf("document without signatures (fields [%s], /SigFlags %d, in place): directory changes %v", sk, c.SF, d2), d2)
 		}
 		sb2.Close()
 		return ms
@@ -529,7 +564,7 @@ func runCase29(c case29) []mism29 {
 	if err != nil {
 		key := "error|" + sk + "|perms=" + permKey
 		if errors.Is(err, api.ErrNoSignatures) {
-			key = "refused-as-unsigned|no signature field, perms=" + permKey
+			key = "refused-as-unsigned|no signature field, perms=" + permBase
 			if len(c.SigFields) > 0 {
 				key = "refused-as-unsigned|" + sk
 			}
@@ -710,7 +745,7 @@ func runC29() {
 			nosig++
 		} else {
 			fj, _ := json.Marshal(c.Fields)
-			nontrivial[string(fj)+"|"+strings.Join(sortedCopy(c.Perms), "+")+fmt.Sprint(c.Link, c.NP)] = true
+			nontrivial[string(fj)+"|"+strings.Join(sortedCopy(c.Perms), "+")+fmt.Sprint(c.Link, c.NP, sortedCopy(c.Ind), c.SF)] = true
 		}
 		put(runCase29(c))
 	}
